@@ -1,10 +1,9 @@
 (* Props/C01.v — HDF5 round trip returns an equivalent graph.
-   Proved here: the file round trip REFINES an explicit specification of what it does to the dictionary
-   form (norm_entries): reader inverts writer on every branch; strings, arrays and the edge list survive
-   exactly, at every depth.  Not proved (kept visible as c01_full_statement): that re-running the
-   constructors on the normalised dictionary yields an equivalent node for all 17 primitives — that part is
-   established by the correspondence run (model = implementation on random graphs) and the strict oracle. *)
-From NIR Require Import Model.Serial Proofs.SerialProofs Corr.Obs.
+   The file round trip REFINES an explicit specification of what it does to the dictionary form (norm_entries):
+   reader inverts writer on every branch; strings, arrays and the edge list survive exactly, at every depth; and
+   re-running the constructors on the normalised dictionary yields an equivalent node, for all 17 primitives and
+   graphs of any depth (c01_file_round_trip). *)
+From NIR Require Import Model.Serial Proofs.SerialProofs Proofs.DictProofs Proofs.RoundTripProofs.
 
 Theorem c01_reader_inverts_writer :
   forall fuel kv ms, write_rec fuel kv = Ok ms -> norm_entries kv = Ok (hdf_entries ms).
@@ -40,9 +39,31 @@ Theorem c01_int_sequences_keep_value :
     norm_val (VTuple l) = Ok v' \/ norm_val (VList l) = Ok v' -> seq_view v' = Some zs.
 Proof. exact norm_val_ints. Qed.
 
-(* the full statement (NOT proved as a theorem; see the header) *)
-Definition c01_full_statement : Prop :=
-  forall e g t, eval e = Ok g -> write g = Ok t -> exists g', read t = Ok g' /\ node_equiv g' g = true.
+(* THE PROPERTY: for every node g produced by the constructors (`built`: a leaf returned by `construct`, or mk_graph of
+   built children with distinct names, to ANY depth) that nir.write accepts, nir.read of the written file SUCCEEDS and
+   returns an equivalent node.  `equiv g' g` (Proofs/RoundTripProofs.v): same kind; same field names in the same order;
+   every non-metadata field related by `vsim` ("compared as numbers and arrays": Python ints may come back as numpy
+   scalars, integer tuples/lists as integer arrays, 0-d arrays as numpy scalars); every array-valued field of rank >= 1
+   IDENTICAL (dtype, shape, content); metadata = its normalised form; input/output types equal (up to the TArr/TSeq
+   container for Input/Output/Flatten built from a dict argument); for graphs the same child names in the same order
+   with equivalent children, the same edge list, graph-level types related entry by entry.
+   `rt_domain g`: (D1) no Python bool / float / bytes and no empty nested "metadata" entry among the NON-metadata field
+   values (each shown necessary by a computed counterexample in RoundTripProofs.v — e.g. Flatten(start_dim=True) writes
+   but does not read); (D2) Conv padding/stride/dilation are not 0-d arrays (sufficient, not necessary); (D3) the type
+   dictionaries of Input/Output/Flatten have the single entry the class serialises.  Nothing is assumed about metadata. *)
+Theorem c01_file_round_trip : forall g t, built g -> rt_domain g -> write g = Ok t ->
+  exists g', read t = Ok g' /\ equiv g' g.
+Proof. exact file_round_trip. Qed.
+
+(* without D3: against the canonical form (type dictionaries restricted to the serialised entry) *)
+Theorem c01_file_round_trip_canon : forall g t, built g -> rt_dom g -> write g = Ok t ->
+  exists g', read t = Ok g' /\ equiv g' (canon g).
+Proof. exact file_round_trip_canon. Qed.
+
+(* non-vacuity: Input (dict argument with a tuple) -> Conv2d ('same', tuple and int hyper-parameters) -> Flatten ->
+   CubaLIF (scalar float w_in; metadata tree with a float, a bool and an empty nested "metadata") -> Output *)
+Example c01_example : built ex_graph /\ rt_domain ex_graph.
+Proof. split; [exact ex_built|exact ex_domain]. Qed.
 
 Print Assumptions c01_reader_inverts_writer.
 Print Assumptions c01_read_is_from_dict_of_normalised.
@@ -51,3 +72,5 @@ Print Assumptions c01_strings_preserved.
 Print Assumptions c01_nothing_invented.
 Print Assumptions c01_ints_keep_value.
 Print Assumptions c01_int_sequences_keep_value.
+Print Assumptions c01_file_round_trip.
+Print Assumptions c01_file_round_trip_canon.
